@@ -53,7 +53,7 @@ def c03_ok(text, ref_text, p0lit, explit):
 
 def build(tier, seed, known):
     plan = Plan(prop="C03")
-    n = 3 if tier == "quick" else 6
+    n = 4 if tier == "quick" else 8
     src = PRE
     for cname, ctx in CONTEXTS:
         for kname, (spell, tok, pres, p0) in KINDS.items():
